@@ -143,6 +143,18 @@ def table_inputs(ctx):
     for sysid in ("", "x", gen.IBM_SYSTEM, "about:legacy-compat"):
         out.append(('<!DOCTYPE html SYSTEM "%s"><p><table>' % sysid, None))
         out.append(('<!DOCTYPE HTML system "%s"><p><table>' % sysid.upper(), None))
+    # whitespace that reaches the tree builder as a token of its own because it was written as a character reference, after
+    # each kind of earlier content of the elements whose first newline is dropped
+    for el in ("pre", "listing", "textarea"):
+        for first in ("", "x", "<b>", "<!--c-->", " ", "&#32;"):
+            for ws in ("\n", "&#10;", "&#xA;", "&NewLine;", "&#13;", "\r\n", "&#10;&#10;"):
+                out.append(("<%s>%s%sy</%s>z" % (el, first, ws, el), None))
+                out.append(("<table><%s>%s%sy" % (el, first, ws), None))
+    # token shapes the algorithm never inspects: attributes and a trailing solidus on end tags, duplicate attributes
+    for nm in ("br", "p", "div", "b", "a", "table", "td", "body", "html", "li", "select", "svg", "script", "title", "x-y"):
+        for shape in ("</%s a>", "</%s a=b c='d'>", "</%s/>", "</%s a/>"):
+            out.append(("<p>x" + (shape % nm) + "y", None))
+            out.append(("<table><tr><td><b>" + (shape % nm) + "y", None if len(out) % 2 else "div"))
     followers = ["", ";", "=", "a", "Z", "0", "9", " ", "&", "é", "É", "中", "²", "٣", "\u212a", "\u017f", "\U0001d7d8", "\u00aa", "-", "_"]
     followers += [c for c in charclasses.NON_ASCII_DIGITS]
     for nm in ("amp", "lt", "copy", "not", "AElig", "amp;", "notin;", "#38", "#x26", "#38;"):
